@@ -2,6 +2,8 @@ import RimeModel.C18.Parse
 /-! UTF-8 codec and double-quote escaper theorems of C18 proved here, restated in Props/C18.lean -/
 namespace RimeModel.C18
 
+set_option linter.unusedSimpArgs false
+
 theorem ofNat_toNat (x : Nat) (h : x < 256) : (UInt8.ofNat x).toNat = x := by
   simp [UInt8.toNat_ofNat]; omega
 
